@@ -337,6 +337,19 @@ func (x *Exec) loopTargets(fr *Frame, li *loopInfo) (map[string]*loopMod, bool) 
 						continue
 					}
 				}
+				// library operations that write exactly the elements of one argument slice
+				if arg := inPlaceSliceArg(cc); arg != nil {
+					if sl, ok := arg.Type().Underlying().(*types.Slice); ok {
+						m := get(heapKeySlice(sl.Elem()), sl.Elem())
+						roots, ok := sliceRoots(arg, li, map[ssa.Value]bool{})
+						if !ok {
+							m.whole = true
+						} else {
+							addRoots(m, roots, -1)
+						}
+						continue
+					}
+				}
 				// other calls: whole-key effects from the callee analysis
 				tmpBlocks := map[*ssa.BasicBlock]bool{b: true}
 				_ = tmpBlocks
@@ -427,6 +440,9 @@ func (x *Exec) collectCallMods(cc *ssa.CallCommon, in ssa.Instruction, seen map[
 	if cf == nil {
 		if _, ok := x.pureFieldFunc(cc); ok {
 			return false
+		}
+		if dt, _ := x.dispatchTableOf(cc.Value); dt != nil {
+			return x.dispatchMods(dt, acc)
 		}
 		return true
 	}
@@ -574,4 +590,28 @@ func (x *Exec) loopHavoc(fr *Frame, li *loopInfo, entry, head *State) {
 			}
 		}
 	}
+}
+
+// inPlaceSliceArg: for library calls that write the elements of exactly one argument slice
+// and nothing else (binary.BigEndian.PutUint64(b, v), sort.Strings(s), sort.Slice(s, less)
+// with a pure comparator), that argument.
+func inPlaceSliceArg(cc *ssa.CallCommon) ssa.Value {
+	cal := cc.StaticCallee()
+	if cal == nil {
+		return nil
+	}
+	key := fullFuncKey(cal)
+	if cal.Origin() != nil {
+		key = fullFuncKey(cal.Origin())
+	}
+	if (strings.HasPrefix(key, "encoding/binary.(bigEndian).PutUint") || strings.HasPrefix(key, "encoding/binary.(littleEndian).PutUint")) && len(cc.Args) >= 2 {
+		return cc.Args[1]
+	}
+	switch key {
+	case "sort.Strings", "sort.Ints", "sort.Float64s", "slices.Sort", "slices.Reverse":
+		if len(cc.Args) >= 1 {
+			return cc.Args[0]
+		}
+	}
+	return nil
 }
